@@ -289,8 +289,10 @@ def _run_unit_once(unit, tier, seed, carry):
     try:
         degrade = carry.get('degrade') or False
         res['degraded'] = bool(degrade)
-        text, table, meta = assemble(os.path.join(VERIF, cfg['template']), extra_shims=extra_shims, havoc_decls=havoc, degrade=degrade)
-        ctext, ctable, _ = assemble(os.path.join(VERIF, cfg['template']), canary=True, extra_shims=extra_shims, havoc_decls=havoc, degrade=degrade)
+        xc = list(carry.get('extra_consts') or [])
+        res['auto_lifted_consts'] = [n for _, n in xc]
+        text, table, meta = assemble(os.path.join(VERIF, cfg['template']), extra_shims=extra_shims, havoc_decls=havoc, degrade=degrade, extra_consts=xc)
+        ctext, ctable, _ = assemble(os.path.join(VERIF, cfg['template']), canary=True, extra_shims=extra_shims, havoc_decls=havoc, degrade=degrade, extra_consts=xc)
     except LiftError as e:
         res['status'] = 'undecided'
         res['undecided'].append(f'lift: {e}')
@@ -469,6 +471,17 @@ def run_unit(unit, tier='quick', seed=0):
                 if dcl not in carry.setdefault('auto_havoc_decls', []):
                     carry['auto_havoc_decls'].append(dcl)
                     carry.setdefault('auto_havoc', []).append(pth)
+                    new = True
+        # the lifted code mentions a crate-level constant the template does not lift: lift it from the same file and retry
+        for u in r['undecided']:
+            m = re.search(r'cannot find value `(\w+)` in this scope at ((?:ts-rs|macros)/\S+?\.rs):\d+', u)
+            if m and (m.group(2), m.group(1)) not in carry.setdefault('extra_consts', []):
+                try:
+                    src_txt = open(os.path.join(REPO, m.group(2)), encoding='utf-8').read()
+                except OSError:
+                    src_txt = ''
+                if re.search(r'(?m)^\s*(pub(\([a-z]+\))?\s+)?const\s+' + re.escape(m.group(1)) + r'\s*:', src_txt):
+                    carry['extra_consts'].append((m.group(2), m.group(1)))
                     new = True
         # ghost text (invariants / hints) that no longer compiles against the lifted code: retry on pre/postconditions alone
         ghost_errs = [u for u in r['undecided'] if u.startswith('verifier front-end:') and ('at None:None' in u or 'at template:' in u)]
